@@ -29,6 +29,8 @@ CLAIMED['C01'] = ("Bounded symbolic model checking of the module lifecycle: gate
          "Trusted: go/ssa, symgo (sequentially consistent sync/atomic intrinsics, G1 yield-only scheduling), z3. Finer interleavings, >3 modules, >1 failure and the Start() wrapper are outside the claim.")
 CLAIMED['C15'] = ("Bounded symbolic model checking of the microtask scheduler and its accounting with the engine's goroutine scheduler: every variant x outcome leaves the global and per-module counters at their previous values, runs the function exactly once and returns its error (or a panic error); done() is idempotent; with threshold 2 and three concurrent medium/low submitters no more than 2 functions run at once in any order of the function bodies, counters return to zero and a later microtask is admitted.",
          "Trusted: go/ssa, symgo (SC atomics, G1 yield-only scheduling), z3. Max-delay expiry, larger thresholds and finer interleavings are outside the claim.")
+CLAIMED['C05'] = ("Bounded symbolic model checking of the stop protocol: the completion decision as a lemma over fully symbolic flags and counters, worker accounting (count, decrement, completion check order), and the real stop sequence run with the engine's goroutine scheduler for a module with up to 2 running work items and a stop routine returning or panicking at an arbitrary point, exploring every scheduling choice at blocking points; a lost completion appears as a deadlock and is reported as a violation.",
+         "Trusted: go/ssa, symgo (SC atomics/locks, G1 scheduling), z3. More than 2 items, tasks/event hooks as running items, real timeouts and finer preemption are outside the claim.")
 NA = {}
 def check(pid):
     text, note = CLAIMED[pid]
